@@ -631,9 +631,9 @@ def exhaustive(X):
         if ck.violations:
             return
     # a sample of the next length, and a sample of everything under ASan+UBSan
-    nxt = [b"".join(ck.rng.choice(SYMS) for _ in range(n1 + 1 + (j % 3))) for j in range(6000 if ck.quick else 40000)]
+    nxt = [b"".join(ck.rng.choice(SYMS) for _ in range(n1 + 1 + (j % 3))) for j in range(3000 if ck.quick else 40000)]
     examine(X, nxt, "sample-len%d-%d" % (n1 + 1, n1 + 3), modes, plain=True)
-    examine(X, ck.rng.sample(texts, min(len(texts), 4000 if ck.quick else 12000)), "exhaustive-asan-sample", modes)
+    examine(X, ck.rng.sample(texts, min(len(texts), 2500 if ck.quick else 12000)), "exhaustive-asan-sample", modes)
 
 
 FILES = [b"foo.c", b"a.h", b"dir/x.c", b"in.c", b"f", b"<built-in>", b"a b.c", b"", b"x.c"]
@@ -1047,6 +1047,7 @@ def run_kb(X):
         rc, err = res["cproc"]
         fe = first_error(err)
         rep = {"kind": "K-B", "template": P.name, "program": P.text.decode("latin-1"), "file": P.path.decode(),
+               "viol_off": P.viol_off,
                "expected": "%s:%d" % (wf.decode("latin-1"), wl), "stderr": err[:400].decode("latin-1"),
                "reproduce": "cproc-qbe <file with the program text>; the first stderr line must start with the expected file:line",
                "what": "the diagnostic does not name the presumed file and line of the violating construct"}
@@ -1127,6 +1128,7 @@ def kb_shrink(X, P, d):
         return None
     text, w, fe = last
     return {"program": text.decode("latin-1"), "expected": "%s:%d" % (w[0].decode("latin-1"), w[1]),
+            "viol_off": text.find(P.tmpl[2]),
             "got": "%s:%d:%d" % (fe[0].decode("latin-1"), fe[1], fe[2]), "file": path.decode(),
             "original_program": P.text.decode("latin-1")}
 
@@ -1163,6 +1165,32 @@ def run_corpus(X):
             ka.append(open(p, "rb").read())
     if ka:
         examine(X, ka, "corpus")
+
+
+def run_replay(X, rep):
+    """bin/check C11 --replay file: re-run one recorded input"""
+    ck = X.ck
+    if "input_hex" in rep and rep.get("mode") in ("pp", "ppnl"):
+        examine(X, [bytes.fromhex(rep["input_hex"])], "replay", modes=(rep["mode"],))
+    elif "program" in rep:
+        text = rep["program"].encode("latin-1")
+        path = os.path.join(ck.scratch(), "replay.c").encode()
+        open(path, "wb").write(text)
+        r = subprocess.run([X.cproc, path.decode()], stdout=subprocess.DEVNULL, stderr=subprocess.PIPE)
+        fe = first_error(r.stderr)
+        ck.count(("replay", text))
+        off = rep.get("viol_off")
+        if off is None or off < 0:
+            ck.notes.append("replay without the offset of the violating construct: nothing to compare")
+            return
+        ref = reference(text, False, kb=True)
+        w = presumed(text, ref.dirs, off, file0=path)
+        if fe is None or (fe[0], fe[1]) != (w[0], w[1]):
+            ck.violation({"kind": "K-B", "program": rep["program"], "viol_off": off,
+                          "expected": "%s:%d" % (w[0].decode("latin-1"), w[1]),
+                          "got": None if fe is None else "%s:%d:%d" % (fe[0].decode("latin-1"), fe[1], fe[2]),
+                          "stderr": r.stderr[:300].decode("latin-1"),
+                          "what": "the diagnostic does not name the presumed file and line of the violating construct"})
 
 
 # ============================================================================= main
@@ -1214,6 +1242,9 @@ def run(ck):
     X.oracles = [cc for cc in ("gcc", "clang") if which(cc)]
     if not X.oracles:
         ck.notes.append("neither gcc nor clang found: the presumed locations of K-B are not validated")
+    if ck.replay:
+        run_replay(X, json.load(open(ck.replay)))
+        return
     steps = [run_corpus, random_texts, run_kb, exhaustive]
     for st in steps:
         if ck.violations:
